@@ -1,5 +1,8 @@
 """R-AWAIT: suspension points of a coroutine body with the locals saved across them.
 
+`Await.saved` comes from the coroutine layout rustc's state transform computed after drop elaboration
+(facts key "opt"), i.e. exactly the locals stored in the coroutine state at that suspension point.
+
 The saved-locals information comes from rustc's own coroutine layout computation
 (`mir_coroutine_witnesses`): a local is listed for a suspension point iff rustc decided it is
 live across that yield, which is exactly "held across the await"."""
@@ -45,6 +48,10 @@ class Await:
 def awaits(facts, body):
     """All suspension points of a coroutine body, in block order."""
     co = facts.coroutines.get(body.id)
+    # prefer the layout the state transform computed on drop-elaborated MIR ("opt"): it is exact, whereas the
+    # type-check-time witness layout keeps a local that was moved out (e.g. `drop(guard)`) before the await
+    if co and co.get("opt"):
+        co = co["opt"]
     ys = mir.yields(body)
     out = []
     variants = co["variants"][3:] if co else []
